@@ -19,9 +19,10 @@ pub fn gaps(seed: usize) -> Vec<f64> {
     (0..base.len()).map(|i| base[(i + seed) % base.len()]).collect()
 }
 
+thread_local! { pub static AXIS_OFFSET: std::cell::Cell<f64> = std::cell::Cell::new(0.0); }
 pub fn axis(prefix: &str, n: usize, seed: usize) -> Array1<Sym> {
     let g = gaps(seed);
-    let mut v = -1.25 + seed as f64 * 0.5;
+    let mut v = -1.25 + seed as f64 * 0.5 + AXIS_OFFSET.with(|o| o.get());
     let mut out = Vec::new();
     for i in 0..n {
         out.push(var(&format!("{prefix}{i}"), v));
@@ -239,6 +240,7 @@ fn main() {
         match args[0].as_str() {
             "spline" | "linear" => {
                 let strat_name = args[0].clone();
+                AXIS_OFFSET.with(|o| o.set(arg(&args, "off", "0").parse().unwrap()));
                 let n: usize = arg(&args, "n", "4").parse().unwrap();
                 let lanes: Vec<usize> = arg(&args, "lanes", "").split('x').filter(|s| !s.is_empty()).map(|s| s.parse().unwrap()).collect();
                 let bc = arg(&args, "bc", "NotAKnot").to_string();
